@@ -20,7 +20,12 @@ git -C $M/repo reset -q --hard ; git -C $M/repo clean -fdq
 if [ "$PATCH" != "-" ]; then
     git -C $M/repo apply "$PATCH" 2>/dev/null || git -C $M/repo apply -C1 "$PATCH" 2>/dev/null || git -C $M/repo apply --3way "$PATCH" 2>/dev/null || { echo "patch does not apply"; git -C $M/repo reset -q --hard; exit 2; }
 fi
-rsync -a --delete --exclude target /verif/harness/ $M/harness/
+if [ "${MUT_COMMITTED:-0}" = "1" ]; then
+    # the harness as committed (a working tree that is being edited may not compile)
+    rm -rf $M/harness.new && mkdir -p $M/harness.new && git -C /verif archive HEAD harness | tar -x -C $M/harness.new && rsync -a --delete --exclude target $M/harness.new/harness/ $M/harness/ && rm -rf $M/harness.new
+else
+    rsync -a --delete --exclude target /verif/harness/ $M/harness/
+fi
 sed -i "s#/repo/crates/#$M/repo/crates/#g" $M/harness/Cargo.toml
 sed -i "s#target-dir = .*#target-dir = \"$M/target\"#" $M/harness/.cargo/config.toml
 cp /verif/known_findings.json $M/vdir/
